@@ -10,6 +10,11 @@ LAB = "./internal/zzverif/lab"
 H2 = "./internal/martian/h2"
 
 CHECKS = {
+    "C15": {
+        "runs": [
+            R(LAB, "^TestC15Stall", {"checks": 20, "timeout": 900}, {"checks": 120, "shards": 8, "timeout": 3000}),
+        ],
+    },
     "C11": {
         "runs": [
             R(LAB, "^TestC11Shutdown", {"checks": 60, "timeout": 900}, {"checks": 300, "shards": 16, "timeout": 3000}, race=True),
@@ -111,6 +116,9 @@ CHECKS = {
 LEVELS = {"C12": "fault_enumeration"}  # default: exploration
 
 RULES = {
+    "C15": "proxies with small, pairwise different limits (idle 600 ms, read-header 350 ms, TLS handshake 450 ms, PROXY header 250 ms; one extra plain proxy with idle 2.5 s) on six listener stackings: plain, TLS, PROXY protocol, PROXY+TLS, MITM, plain with long idle. rapid draws 1-40 simultaneous peers, each stalling at a generated point: before any byte, after k bytes of the PROXY line / the TLS ClientHello (a real captured hello) / the request head (k generated), head sent in two parts, between requests, after a MITM'd CONNECT with and without hello bytes; optionally a well-behaved client that connects while the others stall, and a request whose origin answers only after 3 idle timeouts. "
+           "Oracle: each stalled socket is ended by the proxy no earlier than the applicable limit after the earliest instant the proxy's timer can have started (exact lower bound) and no later than limit + 3 s (1.5 s on the long-idle stack, so a header limit silently replaced by the idle limit is seen); the slow-origin exchange completes; the well-behaved client is served within half the smallest limit. Positive timing clauses are retried twice before they count. "
+           "Non-trivial = a stall inside a partially sent unit, or >= 2 stalled peers with a bystander. Distinct = distinct cases.",
     "C11": "two harnesses: a bare martian.Proxy whose Shutdown(ctx)/Close are called directly, and forwarder's HTTPProxy.Run whose context is cancelled (listener close, drain with ShutdownTimeout, forced close). rapid draws 1-8 connections, each brought into a phase before shutdown begins: connected-idle, idle after one exchange, half a request head sent, request held at the origin (gate), response head and half the body relayed (gate), CONNECT tunnel open; a deadline of 150/400/1200 ms; and a sequence of actions executed while shutdown runs: release gate i, client i sends a new request, client i disconnects, a new client connects and sends a request, echo through tunnel i, short sleeps. "
            "Oracle: every exchange whose request had reached its origin completes with exactly the scripted response and - if its head was written during shutdown - the connection is then closed; requests first sent after shutdown began are neither forwarded (origin log) nor answered and their connections are closed; connections accepted meanwhile get no service; open tunnels keep relaying; Shutdown returning nil implies every client socket is at EOF, returning an error implies it equals ctx.Err() and not before the deadline; after Close (bare) / after Run returned (forwarder) every socket is closed; Serve returns; listener_cx_active is 0. "
            "Non-trivial = at least two different phases incl. an in-flight exchange. Distinct = distinct cases.",
@@ -176,6 +184,9 @@ RULES = {
 }
 
 ASSUMPTIONS = {
+    "C15": ["upper bounds are bounded-liveness with generous slack and a retry-3 rule; lower bounds are exact because the harness clock is read before the proxy can have started its timer",
+            "for 'between requests' the reference instant is the sending of the previous request (sound, slightly weaker than the true start of the idle period)",
+            "a MITM'd CONNECT without any following byte is expected to end by the MITM handshake timeout"],
     "C11": ["'shutdown has begun' has no black-box signal while Shutdown runs (it holds the connection table's lock): the harness waits 40 ms after calling Shutdown (bare) / 50 ms after dials are refused (forwarder); clauses depending on it must fail twice in a row",
             "a response whose head was already written when shutdown began is not required to close its connection (it cannot announce it any more)",
             "placements relative to TLS / PROXY handshakes are covered by C15's listener stackings, not here"],
@@ -236,6 +247,11 @@ ASSUMPTIONS = {
 # MANIFEST texts
 
 META = {
+    "C15": {
+        "technique": "property-based testing (rapid) over generated populations of stalled peers on six listener stackings; timing oracle with exact lower bounds and retried upper bounds; bystander latency probe",
+        "text": "Generated stall points (incl. every partial-unit offset the generator draws) are executed by up to 40 concurrent scripted peers; closing too early, too late or never, a slow origin being cut off, and a bystander waiting behind stalled peers are all detected. 20 cases quick (about 30 s), 960 thorough.",
+        "note": "Cost is dominated by the limits themselves (a case lasts as long as its slowest limit).",
+    },
     "C11": {
         "technique": "property-based testing (rapid) over generated connection-phase populations and action sequences during shutdown; history invariants on client sockets, origin log, Shutdown's return value and the connection gauge; race detector in thorough",
         "text": "Each case freezes several connections in different phases with origin-side gates, starts shutdown, then performs generated client actions; the invariants of the property are checked on what clients and the origin observe. 60 cases quick, 4800 under -race thorough. Verified against 6 mutants (post-read closing check, Connection: close while closing, Shutdown not waiting, Close not closing, registration without count).",
